@@ -208,6 +208,8 @@ def gen(rng, tier):
     add("hist/self", "hist S:l:-:5 E PSELF T E X S:l:-:5 T E")
     add("hist/self", "hist S:l,s:-:2 PS:c1 T PSELF T E S:l,s:-:2 T E")
     add("hist/novalue", "hist S:l9:-:5 T X S:l9:0.z.4:5 T X S:l9:-:5 T E S:l9,s9:1.z.2:2 T X S:l9,s9:0.z.1:2 T E")
+    for nm in ["Lamp [Kitchen]", "Lamp [1", "a*b?c", "back\\slash", "sp ace", "ü😀", "{x}", "]["]:
+        add("hist/dirname", "hist dirname=%s S:l:-:5 PS:c1 T E X S:l:-:5 T E RM:c1:c1 T E X S:l:-:5 T E" % nm.encode().hex())
     add("hist/lowercase-id", "hist S:l:-:5 PS:c1 T E X LC S:l:-:5 T E RM:c1:c1 T X S:l:-:5 T E")
     add("hist/lowercase-id", "hist S:b,s:-:2 X LC S:b,s:-:2 PS:c1 T X S:b,s1:-:2 T E")
     add("hist/badpin", "hist S:l:-:5 X pin=11111111 S:l:-:5 T pin=00102003 S:l1:-:5 T E")
@@ -303,6 +305,8 @@ def oracle_hist(c, obs):
             pin = op[4:]
         elif op.startswith("sid="):
             sid = bytes.fromhex(op[4:]).decode()
+        elif op.startswith("dirname="):
+            continue
         elif p[0] == "LC":
             if ident is not None and not running:
                 ident = ("renamed", ident[1])
